@@ -212,14 +212,26 @@ authority with a `[` but no `]` or the reverse ("Invalid IPv6 URL").  (Bracketed
 not address literals are refused as well; the driver keeps those out of the model.) -/
 def urlsplitOk (s : Str) : Bool := s.contains 91 == s.contains 93
 
-/-- `base` (rd.py:204-207 and the round-4 check): must have a value and be acceptable to
-`urlsplit`, else `BadRequest` -/
+/-- `base` (rd.py:204-207, the round-4 check and the audit-F fix): must have a value, be acceptable
+to `urlsplit` and hold no `>` (62; it is written between `<` and `>` by the resource lookup), else
+`BadRequest` -/
 def baseOf (vs : List Val) : Except Nat (Option Str) :=
   match popSingle vs with
   | .error e => .error e
   | .ok none => .ok none
   | .ok (some none) => .error 400
-  | .ok (some (some b)) => if urlsplitOk b then .ok (some b) else .error 400
+  | .ok (some (some b)) => if urlsplitOk b && !b.contains 62 then .ok (some b) else .error 400
+
+/-- RFC 5987 attr-char: letters, digits and ``!#$&+-.^_`|~`` -/
+def attrChar (b : Nat) : Bool :=
+  (48 ≤ b && b ≤ 57) || (65 ≤ b && b ≤ 90) || (97 ≤ b && b ≤ 122) ||
+  b == 33 || b == 35 || b == 36 || b == 38 || b == 43 || b == 45 || b == 46 || b == 94 ||
+  b == 95 || b == 96 || b == 124 || b == 126
+
+/-- `is_parmname` (audit-F fix): a non-empty sequence of attr-char, what RFC 6690 allows as the
+name of a link parameter — the endpoint lookup writes the names of the registration parameters
+out as such, unescaped -/
+def parmnameOk (s : Str) : Bool := !s.isEmpty && s.all attrChar
 
 /-- keys `update_params` refuses: rd.py:163-172 -/
 def forbiddenInUpdate : List Str := [sEp, sD, sPage, sCount, sRt, sHref, sAnchor]
@@ -236,7 +248,9 @@ always succeeds for the hrefs and bases the driver lets through once `urlsplitOk
 def updateParams (now : Nat) (reg : Reg) (remote : Option Str) (q : Query) (isInitial : Bool) :
     Except Nat Reg :=
   -- rd.py:163-172
-  if forbiddenInUpdate.any (fun k => decide (vals k q ≠ [])) then .error 400 else
+  -- … and (audit-F fix) every parameter name must be usable as a link parameter name
+  if forbiddenInUpdate.any (fun k => decide (vals k q ≠ [])) || q.any (fun e => !parmnameOk e.1) then
+    .error 400 else
   -- rd.py:174-186: the network base is needed, and looked up before anything is changed
   if (isInitial || !reg.baseExplicit) && decide (vals sBase q = []) && decide (remote = none) then
     .error 400 else
